@@ -25,7 +25,8 @@ CLAIM = {
             "error returns; the other durable classes are C10 R10.1); (R11.5) writer, deleter and readers of each stored class in "
             "KVVPersister build the storage key from the same prefix constant, the node id and - for channels - the "
             "channel's initial id (id0 of the stub / of the channel, the id the restore path looks up and parses back), and "
-            "the prefixes of different classes differ. Does not decide value equality after a JSON round trip nor the cloud prepare/commit window (C16).",
+            "the prefixes of different classes differ; (R11.6) every write transaction of the on-disk store is committed with redb's "
+            "default (immediate) durability: no set_durability call lowers it, so a write that was acknowledged has been synced. Does not decide value equality after a JSON round trip nor the cloud prepare/commit window (C16).",
     "note": "storage layer below Persist trusted; serde derive honours attributes; CHA for dyn Persist",
     "technique": "static analysis: persist-before-acknowledge dataflow (mutation summaries + must-pass persister completion) "
                  "+ persist/restore sibling agreement",
@@ -70,6 +71,7 @@ def run(ctx):
     r113(ctx)
     r114(ctx)
     r115(ctx)
+    r116(ctx)
 
 
 def r111(ctx, classes=None):
@@ -466,3 +468,31 @@ def r115(ctx):
     firsts = {cls: sorted(pres)[0] for cls, pres in by_cls.items() if cls != "other" and pres}
     ctx.ob("R11.5", len(set(firsts.values())) == len(firsts), "classes/distinct-prefixes",
            f"two stored classes share a key prefix: {firsts}", where="vls-persist/src/kvv.rs", sample=str(firsts))
+
+
+def r116(ctx, rid="R11.6"):
+    ctx.rule(rid, "the on-disk store never lowers a write transaction's durability: every redb write transaction is committed "
+                  "with the default (immediate) durability; `set_durability` is called, if at all, with Durability::Immediate "
+                  "(an acknowledged put must survive a crash of the process, not only an orderly close)")
+    p = ctx.prog
+    n_tx = 0
+    for b in sorted(p.bodies.values(), key=lambda x: x.name):
+        if b.d.krate != "vls_persist":
+            continue
+        fv = None
+        for bi, c in b.calls():
+            nm = c.callee.name if c.callee else ""
+            last = nm.rsplit("::", 1)[-1]
+            if last == "begin_write" and "redb" in nm:
+                n_tx += 1
+                ctx.touch(b)
+            if last == "set_durability":
+                fv = fv or fnview(ctx, b, policy=False)
+                arg = render(fv.expr(c.args[-1])) if c.args else ""
+                ctx.ob(rid, arg.endswith("Immediate"), f"{R.owner_name(p, b)}/set_durability",
+                       f"`{b.name}` commits a store transaction with durability `{arg[-40:]}` (line {c.line}): the write is acknowledged "
+                       "before it is synced, so a crash after the reply restores an older channel / node state (a signed commitment "
+                       "number looks new again, a revocation is forgotten)", where=f"{b.file}:{c.line}", sample=arg[-40:])
+    ctx.floor(rid, "redb write transactions in vls-persist", n_tx, 3)
+    ctx.ob(rid, True, "vls_persist/write-transactions-durable", "", where="vls-persist/src/kvv/redb.rs",
+           sample=f"{n_tx} write transactions, none with lowered durability")
